@@ -128,6 +128,24 @@ func init() {
 		fr.i.ex.notes = append(fr.i.ex.notes, fmt.Sprintf("frozen %d cells/maps reachable from %s", n, args[0].(string)))
 		return nil
 	})
+	reg(zz+"FreezeGlobals", func(fr *frame, args []value) value {
+		// package-level state of goflow and gocommon is shared by all sessions of
+		// a process: from here on a write to it (or to anything reachable from
+		// it) outside a held mutex / Once is a violation
+		i := fr.i
+		n := 0
+		for g, cell := range i.globals {
+			if g.Pkg == nil || !strings.HasPrefix(g.Pkg.Pkg.Path(), "github.com/nyaruka/") || strings.HasSuffix(g.Pkg.Pkg.Path(), "/zzverif") {
+				continue
+			}
+			if strings.HasPrefix(g.Name(), "verif") || strings.HasPrefix(g.Name(), "Verif") || strings.HasPrefix(g.Name(), "init$") {
+				continue
+			}
+			n += i.freeze(cell, "package-level state: "+g.Pkg.Pkg.Path()+"."+g.Name(), false)
+		}
+		i.ex.notes = append(i.ex.notes, fmt.Sprintf("frozen %d cells/maps of package-level state", n))
+		return nil
+	})
 	reg(zz+"Guard", func(fr *frame, args []value) value {
 		fr.i.freeze(args[1].(iface).v, args[0].(string), true)
 		return nil
